@@ -49,6 +49,7 @@ func runPool(o *opts) {
 	var all []*Transition
 	distinct := map[string]bool{}
 	sc := 0
+	hangs := 0
 	for rep := 0; rep < reps; rep++ {
 		for _, sh := range shared {
 			for _, de := range dedicated {
@@ -86,7 +87,8 @@ func runPool(o *opts) {
 					}
 					abs := filepath.Join(p.Root, "data")
 					materialize(abs, art, p.CacheDir)
-					p.writeStage("s.yaml", &StageRec{Out: []Art{{Path: "data", IsDir: true}}})
+					must(os.WriteFile(filepath.Join(p.Root, "src.txt"), []byte("src"), 0o644))
+					p.writeStage("s.yaml", &StageRec{Cmd: "echo s.yaml >> .runlog", In: []Art{{Path: "src.txt"}}, Out: []Art{{Path: "data", IsDir: true}}})
 					if res := p.dud("", "stage", "add", "s.yaml"); res.Exit != 0 {
 						must(fmt.Errorf("pool setup: %s", res.Stderr))
 					}
@@ -125,6 +127,25 @@ func runPool(o *opts) {
 						_ = w
 						t, _ = p.do(Cmd{Kind: "status"}, nil, want(11, 24, 15), nil, nil)
 						tagIt(t, "status after checkout")
+					}
+					// the short-circuit status path (only `dud run` uses it): several tracked entries
+					// modified at different depths, then run
+					if !failing && hangs < 2 {
+						nedit := 0
+						walkEntries(art, "", func(rel string, n *Node) {
+							if n.Kind == "f" && nedit < 3 && rr.chance(1, 2) {
+								fp := filepath.Join(abs, rel)
+								os.Remove(fp)
+								must(os.WriteFile(fp, []byte("edited"), 0o644))
+								nedit++
+							}
+						})
+						p.Timeout = 25 * time.Second
+						t, _ = p.do(Cmd{Kind: "run"}, nil, want(11, 24), nil, nil)
+						if p.Hung {
+							hangs++ // two hangs are evidence enough; do not wait for more watchdogs
+						}
+						tagIt(t, fmt.Sprintf("run after %d edits (short-circuit status)", nedit))
 					}
 					rmrf(base)
 				}
